@@ -93,11 +93,14 @@ Print Assumptions C16_batch_from_valid_cells.
 
 (* ---- ties to the code regenerated from her_replay_buffer.py on every run ---- *)
 Theorem C16_frag_bookkeeping : forall c hto p k,
-  invalidate c p k =
-    (if her_inval_guard (ln k p) then set_range (ln k) p (her_inval_end (st k p) (ln k p)) c her_inval_value else ln k) /\
+  (let l := ln k (her_inval_reads_length p) in
+   let e := her_inval_end (st k (her_inval_reads_start p)) l in
+   invalidate c p k =
+     (if her_inval_guard l then set_range (ln k) (her_inval_from p e) (her_inval_to p e) c her_inval_value else ln k) /\
+   her_inval_which = 1) /\
   close_episode c p k =
     (let '(s, e) := her_close_bounds (cur k) p c in
-     mkC (st k) (set_range (ln k) s e c (her_close_length s e)) (her_close_new_start p) (eid k + 1) 0 (sl k)) /\
+     mkC (st k) (set_range (ln k) (her_close_from s e) (her_close_to s e) c (her_close_length s e)) (her_close_new_start p) (eid k + 1) 0 (sl k)) /\
   col_truncate c hto p k =
     (if her_trunc_guard (cur k) p
      then close_episode c p (mkC (st k) (ln k) (cur k) (eid k) (cnt k)
@@ -117,14 +120,30 @@ Theorem C16_frag_goal : forall g c k i kk,
   cur_ix c k i = her_goal_current i (st k i) c /\
   goal_slot c k i kk = her_goal_slot kk (st k i) c /\
   goal_range g c k i =
-    match g with
-    | Final => (her_goal_final (ln k i), her_goal_final (ln k i) + 1)
-    | Future => (her_goal_current i (st k i) c, ln k i)
-    | Episode => (0, ln k i)
-    end /\
-  her_goal_future_draw kk = kk /\ her_goal_episode_draw kk = kk.
+    (let cur := her_goal_current i (st k i) c in
+     match g with
+     | Final => (her_goal_final (ln k i), her_goal_final (ln k i) + 1)
+     | Future => (her_goal_future_lo cur (ln k i), her_goal_future_hi cur (ln k i))
+     | Episode => (her_goal_episode_lo cur (ln k i), her_goal_episode_hi cur (ln k i))
+     end) /\
+  her_goal_future_draw kk = kk /\ her_goal_episode_draw kk = kk /\
+  (her_goal_branch0, her_goal_branch1, her_goal_branch2) = (1, 2, 3).
 Proof. exact (fun g c k i kk => conj (frag_valid k i) (frag_goal g c k i kk)). Qed.
 Print Assumptions C16_frag_goal.
+
+(* what the model's add / truncate / virtual_sample assume about the remaining statements, picked from the source (codes): ep_start[pos] =
+   _current_ep_start; column e is closed iff done[e]; the timeout mark of truncate goes to slot pos - 1 iff handle_timeout_termination; the new
+   goal is next_observations["achieved_goal"][goal slot, env], written to obs["desired_goal"] and next_obs["desired_goal"];
+   compute_reward(next_obs["achieved_goal"], obs["desired_goal"], infos).  C16_relabel_shape above is the MODEL's definition of a relabelled
+   sample; its tie to _get_virtual_samples is this theorem plus the exhaustive correspondence of harness/c16.py *)
+Theorem C16_frag_relabel_and_writes : forall p ti ev (d hto : bool),
+  her_ep_start_slot p = p /\ her_ep_start_value = 1 /\ her_close_guard d = d /\ her_close_guard_arg = 1 /\
+  her_trunc_to_slot p = p - 1 /\ her_trunc_slot p = p - 1 /\ her_trunc_to_guard hto = hto /\
+  (her_goal_source, her_goal_source_slot ti ev, her_goal_source_env ti ev) = (1, ti, ev) /\
+  (her_relabel_obs_key, her_relabel_next_key, her_relabel_next_value) = (1, 1, 1) /\
+  (her_reward_arg0, her_reward_arg1, her_reward_arg2, her_reward_arg3) = (1, 2, 3, 4).
+Proof. exact frag_her_picks. Qed.
+Print Assumptions C16_frag_relabel_and_writes.
 
 (* ---- non-vacuity: capacity 5, one env; episodes of 3 and 4 steps (the second wraps the ring and
         overwrites the first), then 1 step of an unfinished third episode ---- *)
